@@ -248,6 +248,33 @@ def main(chk):
     global CASES, SEED
     SEED = chk.seed
     cases, runs = oq.generate(chk, plans_for(chk), INVS, timeout=900 if chk.quick else 3000)
+    # part 3: the many-to-many pair
+    global MCASES
+    sc = oq.scale()
+    mplan = [("InitM2M", dict(oq.BASE, K=3 if chk.quick else 10, NQ=int((600 if chk.quick else 5000) * sc)))]
+    mcases, mruns = oq.generate(chk, mplan, ["MTheorems"], timeout=600 if chk.quick else 1800)
+    for r_ in mruns:
+        r_["part"] = "many-to-many"
+    MCASES = mcases
+    mtot = dict(cases=0, api_runs=0, nontrivial=0, nested_nonempty=0, assoc_join_nonempty=0)
+    for viol, mach, cnt in oq.pmap(worker_m2m, len(mcases)):
+        if mach:
+            chk.machinery("oracle calibration failed (many-to-many), first: %s" % mach[0])
+        for sig, what, rp in viol:
+            chk.violation(sig, what, rp)
+        for k_ in mtot:
+            mtot[k_] += cnt[k_]
+    if oq.scale() >= 1 and not chk.violations:
+        mcov = {}
+        for c in mcases:
+            if c["rows"]:
+                key = "%s/%s" % (c["q"]["f"], "assoc-join" if c["q"]["ja"] else "plain")
+                mcov[key] = mcov.get(key, 0) + 1
+        for f in ("any", "anyc", "nanyc", "nest", "nestc", "cont", "ncont", "has", "nnone"):
+            for j in ("plain",) + (() if f == "cont" else ("assoc-join",)):
+                if not mcov.get("%s/%s" % (f, j)):
+                    chk.machinery("vacuous: many-to-many form %s/%s never has a non-empty result" % (f, j))
+    runs = runs + mruns
     rng = random.Random(chk.seed)
     rng.shuffle(cases)
     CASES = cases
@@ -275,7 +302,10 @@ def main(chk):
     samples = [dict(ds=c["ds"], q=c["q"], rows=c["rows"]) for c in cases if len(c["rows"]) >= 2 and c["q"]["pf"] != "none"][:4]
     return chk.finish(
         dict(states=sum(r["distinct"] for r in runs), transitions=sum(r["generated"] for r in runs),
-             traces_validated_against_impl=tot["cases"], evaluations=tot["api_runs"], distinct_nontrivial=tot["nontrivial"],
+             traces_validated_against_impl=tot["cases"] + mtot["cases"], evaluations=tot["api_runs"] + mtot["api_runs"],
+             distinct_nontrivial=tot["nontrivial"] + mtot["nontrivial"],
+             m2m_cases=mtot["cases"], m2m_api_evaluations=mtot["api_runs"], m2m_nontrivial=mtot["nontrivial"],
+             m2m_nested_any_nonempty=mtot["nested_nonempty"], m2m_assoc_join_nonempty=mtot["assoc_join_nonempty"],
              entity_rows_compared=tot["entity_rows"], sqlite_exists_quirk=tot["sqlite_exists_quirk"], samples=samples, tlc_runs=runs, form_coverage=cov, exhaustive=False,
              rule="one case per TLC initial state (data set x query); non-trivial = non-empty result of a query with a WHERE or JOIN form; each "
                   "case executed as Core (calibration) and through 10 ORM API paths, plain and with aliased entities",
@@ -283,3 +313,181 @@ def main(chk):
         assumptions=["SQLite only; bounded data sets (<=3 x <=3 x <=3 rows, values 1..2 + NULL); query grammar of OrmQuery.tla",
                      "legacy Query.all() de-duplicates rows that contain entities (documented): compared with the spec's `uniq`",
                      "queries without ORDER BY compared as multisets"])
+
+
+# ============================================================================================ part 3: many-to-many
+MCASES = []
+
+
+class M2M:
+    """I <-> O over the association table assoc(iid, oid); both directions mapped with secondary=, plus scalar views for has() / != None"""
+
+    def __init__(self):
+        import sqlalchemy as sa
+        from sqlalchemy import orm
+        from sqlalchemy.pool import StaticPool
+        self.sa, self.orm = sa, orm
+        md = sa.MetaData()
+        self.i = sa.Table("i", md, sa.Column("id", sa.Integer, primary_key=True), sa.Column("x", sa.Integer))
+        self.o = sa.Table("o", md, sa.Column("id", sa.Integer, primary_key=True), sa.Column("x", sa.Integer))
+        self.a = sa.Table("assoc", md, sa.Column("iid", sa.Integer, sa.ForeignKey("i.id"), primary_key=True),
+                          sa.Column("oid", sa.Integer, sa.ForeignKey("o.id"), primary_key=True))
+        reg = orm.registry()
+
+        class I:
+            pass
+
+        class O:
+            pass
+        reg.map_imperatively(I, self.i, properties=dict(
+            rel=orm.relationship(O, secondary=self.a, back_populates="rel", order_by=self.o.c.id),
+            one=orm.relationship(O, secondary=self.a, uselist=False, viewonly=True)))
+        reg.map_imperatively(O, self.o, properties=dict(
+            rel=orm.relationship(I, secondary=self.a, back_populates="rel", order_by=self.i.c.id),
+            one=orm.relationship(I, secondary=self.a, uselist=False, viewonly=True)))
+        reg.configure()
+        self.I, self.O = I, O
+        self.engine = sa.create_engine("sqlite://", poolclass=StaticPool, connect_args={"check_same_thread": False})
+        md.create_all(self.engine)
+
+    def load(self, ds):
+        with self.engine.begin() as conn:
+            for t in (self.a, self.i, self.o):
+                conn.execute(t.delete())
+            if ds["ni"]:
+                conn.execute(self.i.insert(), [dict(id=n + 1, x=oq.n(v)) for n, v in enumerate(ds["ix"])])
+            if ds["no"]:
+                conn.execute(self.o.insert(), [dict(id=n + 1, x=oq.n(v)) for n, v in enumerate(ds["ox"])])
+            if ds["link"]:
+                conn.execute(self.a.insert(), [dict(iid=p[0], oid=p[1]) for p in ds["link"]])
+
+    def orm_stmt(self, q):
+        sa = self.sa
+        R, T = (self.I, self.O) if q["root"] == "I" else (self.O, self.I)
+        rfk, tfk = (self.a.c.iid, self.a.c.oid) if q["root"] == "I" else (self.a.c.oid, self.a.c.iid)
+        f, v = q["f"], q["v"]
+        if f == "any":
+            crit = R.rel.any()
+        elif f == "anyc":
+            crit = R.rel.any(T.x == v)
+        elif f == "nanyc":
+            crit = ~R.rel.any(T.x == v)
+        elif f == "nest":
+            crit = R.rel.any(T.rel.any(R.id == v))
+        elif f == "nestc":
+            crit = R.rel.any(T.rel.any(R.x == v))
+        elif f == "cont":
+            crit = R.rel.contains(T(id=v))
+        elif f == "ncont":
+            crit = ~R.rel.contains(T(id=v))
+        elif f == "has":
+            crit = R.one.has(T.x == v)
+        else:
+            crit = R.one != None  # noqa: E711
+        desc = q["ord"] == "idd"
+        o = (lambda c: c.desc() if desc else c.asc())
+        if q["ja"]:
+            return sa.select(R, tfk).join(self.a, rfk == R.id).where(crit).order_by(o(R.id), o(tfk)), R
+        return sa.select(R).where(crit).order_by(o(R.id)), R
+
+    def core_stmt(self, q):
+        """hand-built: every EXISTS over its own aliases of the association and entity tables"""
+        sa = self.sa
+        r, t = (self.i, self.o) if q["root"] == "I" else (self.o, self.i)
+        fk = (lambda a, who: (a.c.iid if who is self.i else a.c.oid))
+        f, v = q["f"], q["v"]
+        a2, t2, a3, r3 = self.a.alias("a2"), t.alias("t2"), self.a.alias("a3"), r.alias("r3")
+
+        def ex(*crit):
+            return sa.exists(sa.select(sa.literal(1)).select_from(a2.join(t2, fk(a2, t) == t2.c.id)).where(fk(a2, r) == r.c.id, *crit))
+        if f in ("any", "nnone"):
+            crit = ex()
+        elif f in ("anyc", "has"):
+            crit = ex(t2.c.x == v)
+        elif f == "nanyc":
+            crit = ~ex(t2.c.x == v)
+        elif f in ("nest", "nestc"):
+            inner = sa.exists(sa.select(sa.literal(1)).select_from(a3.join(r3, fk(a3, r) == r3.c.id)).where(
+                fk(a3, t) == t2.c.id, (r3.c.id == v) if f == "nest" else (r3.c.x == v)))
+            crit = ex(inner)
+        elif f == "cont":
+            crit = ex(t2.c.id == v)
+        else:
+            crit = ~ex(t2.c.id == v)
+        desc = q["ord"] == "idd"
+        o = (lambda c: c.desc() if desc else c.asc())
+        if q["ja"]:
+            return sa.select(r.c.id, r.c.x, fk(self.a, t)).select_from(r.join(self.a, fk(self.a, r) == r.c.id)).where(crit).order_by(
+                o(r.c.id), o(fk(self.a, t)))
+        return sa.select(r.c.id, r.c.x).where(crit).order_by(o(r.c.id))
+
+
+def worker_m2m(indices):
+    import sqlalchemy as sa
+    from sqlalchemy import orm
+    oq.quiet()
+    m = M2M()
+    viol, mach = [], []
+    cnt = dict(cases=0, api_runs=0, nontrivial=0, nested_nonempty=0, assoc_join_nonempty=0)
+    for ci in indices:
+        c = MCASES[ci]
+        q, ds = c["q"], c["ds"]
+        cnt["cases"] += 1
+        m.load(ds)
+        exp = [tuple(r) for r in c["rows"]]
+        if exp:
+            cnt["nontrivial"] += 1
+            cnt["nested_nonempty"] += q["f"] in ("nest", "nestc")
+            cnt["assoc_join_nonempty"] += bool(q["ja"])
+        xs = ds["ix"] if q["root"] == "I" else ds["ox"]
+        cstmt = m.core_stmt(q)
+        with m.engine.connect() as conn:
+            crow = conn.execute(cstmt).all()
+        core = [((r[0],) + tuple(r[2:])) for r in crow]
+        if core != exp or any(oq.z(r[1]) != xs[r[0] - 1] for r in crow):
+            mach.append("calibration (many-to-many): Core rows %r, spec rows %r for q=%r ds=%r" % (core, exp, q, ds))
+            continue
+        sig = dict(spec="OrmQuery", part="m2m", root=q["root"], f=q["f"], ja=q["ja"], ord=q["ord"])
+        try:
+            stmt, R = m.orm_stmt(q)
+            with orm.Session(m.engine) as s:
+                rows = s.execute(stmt).all()
+                got = [((r[0].id,) + tuple(r[1:])) for r in rows]
+                vals_ok = all(oq.z(r[0].x) == xs[r[0].id - 1] for r in rows)
+            apis = [("execute", got)]
+            with orm.Session(m.engine) as s:
+                apis.append(("scalars", [(e.id,) for e in s.scalars(stmt).all()] if not q["ja"] else got))
+            with orm.Session(m.engine) as s:
+                n = s.scalar(sa.select(sa.func.count()).select_from(stmt.order_by(None).subquery()))
+                e = bool(s.scalar(sa.select(stmt.exists())))
+            with orm.Session(m.engine) as s:
+                qy = s.query(*stmt._raw_columns)
+                if q["ja"]:
+                    rfk = m.a.c.iid if q["root"] == "I" else m.a.c.oid
+                    qy = qy.join(m.a, rfk == R.id)
+                qy = qy.filter(*stmt._where_criteria).order_by(*stmt._order_by_clauses)
+                lr = qy.all()
+                apis.append(("Query.all", [((r[0].id,) + tuple(r[1:])) for r in lr] if q["ja"] else [(r.id,) for r in lr]))
+                qn = qy.count()
+            for api, g in apis:
+                cnt["api_runs"] += 1
+                if g != exp:
+                    viol.append((dict(sig, action=api, kind="rows"),
+                                 "many-to-many: %s returns %r, relational meaning (spec = Core) %r; q=%r ds=%r" % (api, g, exp, q, ds),
+                                 dict(case=c, api=api, got=g, sql=str(stmt))))
+            cnt["api_runs"] += 3
+            if not vals_ok:
+                viol.append((dict(sig, action="execute", kind="entity-values"), "many-to-many: entity attribute differs; q=%r ds=%r" % (q, ds), dict(case=c)))
+            if n != c["count"] or qn != c["count"]:
+                viol.append((dict(sig, action="count", kind="count"),
+                             "many-to-many: count(*) over the statement = %r, Query.count() = %r, rows %d; q=%r ds=%r" % (n, qn, c["count"], q, ds),
+                             dict(case=c)))
+            if e != bool(exp):
+                viol.append((dict(sig, action="select-exists", kind="exists"),
+                             "many-to-many: EXISTS(stmt) = %r, rows %d; q=%r ds=%r" % (e, c["count"], q, ds), dict(case=c)))
+        except Exception as ex_:
+            import traceback
+            viol.append((dict(sig, action="exception", kind=type(ex_).__name__),
+                         "many-to-many: %s: %s for q=%r ds=%r" % (type(ex_).__name__, " ".join(str(ex_).split())[:300], q, ds),
+                         dict(case=c, tb=traceback.format_exc()[-1500:])))
+    return viol, mach, cnt
